@@ -10,7 +10,7 @@ from props import base
 from props.base import Context  # noqa: F401
 
 PID = 'C05'
-EXTRA_MODULES = ['DiffxVerif.Properties.C05Tree']
+EXTRA_MODULES = ['DiffxVerif.Properties.C05Tree', 'DiffxVerif.Properties.C05Concrete']
 TIE_MODULES = ['DiffxVerif.Tie.Dom', 'DiffxVerif.Tie.Sections']
 NEEDS = ['sections', 'options', 'text', 'dom']
 ASSUMPTIONS = [
